@@ -383,6 +383,9 @@ fn op_letter(op: &HOp, out: &Outcome) -> char {
 
 pub fn run(seed: u64, thorough: bool, rep: &mut Report) {
     install_panic_hook();
+    // lock-order graph over everything the histories execute (hook H5, passive observer)
+    let recorder = std::sync::Arc::new(crate::sync::Recorder::default());
+    teos::vsync::set_observer(Some(recorder.clone()));
     let boot = BootChain::new();
     let mut master = Rng::new(seed);
     let ncases = if thorough { 4000 } else { 160 };
@@ -404,5 +407,15 @@ pub fn run(seed: u64, thorough: bool, rep: &mut Report) {
         drop(g);
         rep.end_case(if nontrivial { Some(shape) } else { None });
     }
+    teos::vsync::set_observer(None);
+    let edges = recorder.edges.lock().unwrap().clone();
+    for c in crate::sync::find_cycles(&edges) {
+        rep.begin_case("lock-order-graph");
+        rep.fail("C11", &format!("lock-order-cycle:{}", c.join(">")), &format!("over all histories, locks are acquired in both orders: {c:?}"));
+    }
+    let es: Vec<String> = edges.iter().map(|(a, b)| format!("{a}>{b}")).collect();
+    rep.extra.insert("lock_edges".into(), serde_json::json!(es));
+    rep.extra.insert("lock_acquisitions".into(), serde_json::json!(*recorder.acquisitions.lock().unwrap()));
+    rep.line(&format!("cc edges {}", es.join(" ")), "ok");
     cleanup_db_dir();
 }
